@@ -55,3 +55,37 @@ Theorem C02_interval_lookup_sound : forall lon lat lon' lat' res,
   sound_opt eq (lonlat_to_cell IvInst lon lat res) (lonlat_to_cell RInst lon' lat' res).
 Proof. exact lonlat_to_cell_sound. Qed.
 Print Assumptions C02_interval_lookup_sound.
+
+(* ---- Planar half of "the centre and the points around it map back to the cell", every quintant, true scale
+   (Geo/LocateQuintants.v; same statements as C17_locate_scaled_robust / C17_locate_quintant): every face point within
+   1/40 lattice unit of the centre of cell s (at scale 2^-n: within 2^-n / 40) is located at s, and in every quintant
+   q = 0..4 the centre of cell (q, n, s), un-rotated by any matrix within 1e-11 of the inverse of the quintant's rotation
+   matrix and scaled by 2^n, is located at s: the first estimate of the lookup at the reported planar centre is the cell
+   itself.  (The sphere half - that projecting the reported centre forward lands within that radius of the planar centre
+   - is the projection round trip, C15, and is not proved here.) ---- *)
+From Coq Require Import QArith Qabs.
+From A5 Require Import Num.QInst Geo.Tiling Geo.AreaProofs Geo.ChildQuintants Geo.LocateQuintants.
+Open Scope Q_scope.
+
+Theorem C02_near_centre_located_planar (n : nat) (o s : Z) :
+  (1 <= n <= 29)%nat -> (0 <= o < 6)%Z -> (0 <= s < 4 ^ Z.of_nat n)%Z ->
+  exists ln, get_pentagon_vertices QInst (Z.of_nat n) 0 (s_to_anchor s n o) = Some ln /\
+    let c := get_center QInst ln in
+    let sf := inject_Z (2 ^ Z.of_nat n) in
+    forall dx dy : Q, Qabs dx <= 1 # 40 -> Qabs dy <= 1 # 40 ->
+      let ij := face_to_ij QInst (fst c * sf + dx, snd c * sf + dy) in
+      ij_to_s QInst (fst ij) (snd ij) n o = Some s.
+Proof. exact (locate_scaled_robust n o s). Qed.
+Print Assumptions C02_near_centre_located_planar.
+
+Theorem C02_centre_located_every_quintant (n : nat) (q o s : Z) (N : mat (T := Q)) :
+  (0 <= q <= 4)%Z -> (1 <= n <= 29)%nat -> (0 <= o < 6)%Z -> (0 <= s < 4 ^ Z.of_nat n)%Z ->
+  near_inverse N (rotation QInst q) ->
+  exists lq, get_pentagon_vertices QInst (Z.of_nat n) q (s_to_anchor s n o) = Some lq /\
+    let c := get_center QInst lq in
+    let dp := mat_apply QInst N c in
+    let sf := o_ofZ QInst (2 ^ Z.of_nat n) in
+    let ij := face_to_ij QInst (o_mul QInst (fst dp) sf, o_mul QInst (snd dp) sf) in
+    ij_to_s QInst (fst ij) (snd ij) n o = Some s.
+Proof. exact (locate_quintant n q o s N). Qed.
+Print Assumptions C02_centre_located_every_quintant.
